@@ -34,8 +34,8 @@ ASSUMPTIONS = [
     "single faults are injected at the guarded hook points and hit indices, not at arbitrary bytecodes",
     "runs stopped by max_failures are only required to report at least one failure and a non-zero exit code",
 ]
-MIN_EVALUATIONS = {"quick": 150, "thorough": 2000}
-MIN_NONTRIVIAL = {"quick": 80, "thorough": 600}
+MIN_EVALUATIONS = {"quick": 150, "thorough": 1200}
+MIN_NONTRIVIAL = {"quick": 80, "thorough": 250}
 REACH_FLOORS = {"ground_truth_failures": 40, "faults_fired": 30, "clean_runs_exit0": 5, "cli_runs": 10}
 SHARD_TIMEOUT = {"quick": 900, "thorough": 5400}
 
